@@ -22,6 +22,8 @@ Futs = ListOf(FutRef)
 class ConnStub(StubObj):
     """the owning HomeKitConnection as seen from the protocol object"""
 
+    f_transport = None  # (the connection has already forgotten its transport, or holds this protocol's own)
+
     def m_event_received(self, it, ev):
         it.ctx.ghost.setdefault("events", []).append(ev)
         it.ctx.trace.append(("event_received", ev))
